@@ -11,7 +11,7 @@ def run(tier, seed):
     return kani_check.run("C16", ["c16_"], tier, seed, dict(
         functions=FUNCS, bounds="header obligation on every SAT call of the listed queries; " + BOUNDS +
         " Also outside: the reply parser (BufReader / str::parse: CBMC does not finish), the 'cannot hang' clause (threads, pipes, child process).",
-        assumptions=ASSUME), jobs=4, timeout_s=1500 if tier == "quick" else 5400)
+        assumptions=ASSUME), jobs=6)
 
 
 def replay(path):
